@@ -348,7 +348,7 @@ func runGob(m *model.Model, s *ob.Set) {
 						if !ok {
 							continue
 						}
-						h := call.Call.StaticCallee()
+						h := model.Unthunk(call.Call.StaticCallee())
 						if h == nil || !m.InDecimalPkg(h) || len(h.Blocks) == 0 || h.Signature.Results().Len() != 1 || !types.Identical(h.Signature.Results().At(0).Type(), types.Universe.Lookup("error").Type()) {
 							continue
 						}
@@ -586,6 +586,94 @@ func runGob(m *model.Model, s *ob.Set) {
 		}
 		s.Check(why == "", R, name+"/G5:version", pos, "version checked before anything is decoded", why)
 	}
+	// ---------------- G9: a decode that fails has not touched the receiver
+	// Every error return comes before the first write of a field of the receiver and before any
+	// write into the array its mantissa lives in: a rejected buffer leaves the number, its
+	// precision and its mode as they were (validation first, then the stores).
+	{
+		nb := len(fn.Blocks)
+		touched := make([]string, nb) // position of a write that may have happened on the way in
+		reached := make([]bool, nb)
+		reached[0] = true
+		touch := func(in ssa.Instruction) bool {
+			switch x := in.(type) {
+			case *ssa.Store:
+				if fa, ok := m.DecField(x.Addr); ok && m.RefOf(fa.X).MayBeParam(0) {
+					return true
+				}
+				if m.IsDecPtr(x.Addr.Type()) && m.RefOf(x.Addr).MayBeParam(0) {
+					return true
+				}
+				if ia, ok := x.Addr.(*ssa.IndexAddr); ok && m.IsWordSlice(ia.X.Type()) && m.RootsOf(ia.X)["P0.mant"] {
+					return true
+				}
+			case ssa.CallInstruction:
+				cal, c := model.Callee(x)
+				if cal == nil || c == nil {
+					return false
+				}
+				for ai, a := range c.Args {
+					if m.IsDecPtr(a.Type()) && m.RefOf(a).MayBeParam(0) && len(cal.Blocks) > 0 && len(m.StoreSets(cal, ai)) > 0 {
+						return true
+					}
+					if m.IsWordSlice(a.Type()) && m.RootsOf(a)["P0.mant"] && len(cal.Blocks) > 0 && m.ElemWrites(cal)[fmt.Sprintf("P%d", ai)] {
+						return true
+					}
+				}
+			}
+			return false
+		}
+		work := []int{0}
+		for len(work) > 0 {
+			bi := work[len(work)-1]
+			work = work[:len(work)-1]
+			if !live[bi] {
+				continue
+			}
+			t := touched[bi]
+			for _, in := range fn.Blocks[bi].Instrs {
+				if t == "" && touch(in) {
+					t = m.InstrPos(in)
+				}
+			}
+			for _, ed := range model.LiveSuccs(fn.Blocks[bi]) {
+				ti := ed.To.Index
+				if !reached[ti] || (touched[ti] == "" && t != "") {
+					reached[ti] = true
+					if touched[ti] == "" {
+						touched[ti] = t
+					}
+					work = append(work, ti)
+				}
+			}
+		}
+		why := ""
+		nerr := 0
+		for bi, b := range fn.Blocks {
+			if !live[bi] || !reached[bi] || len(b.Instrs) == 0 {
+				continue
+			}
+			ret, ok := b.Instrs[len(b.Instrs)-1].(*ssa.Return)
+			if !ok || isSuccessReturn(m, ret) {
+				continue
+			}
+			nerr++
+			t := touched[bi]
+			for _, in := range b.Instrs {
+				if t == "" && touch(in) {
+					t = m.InstrPos(in)
+				}
+			}
+			if t != "" && why == "" {
+				why = fmt.Sprintf("the error return at %s can be reached after the receiver was written at %s: a buffer that is rejected must leave the receiver's value, precision and mode as they were (the validations come first, the stores last)", m.InstrPos(ret), t)
+			}
+		}
+		if nerr == 0 {
+			s.Note(R, name+"/G9:atomic", pos, "no error return recognised")
+		} else {
+			s.Check(why == "", R, name+"/G9:atomic", pos, fmt.Sprintf("%d error returns, none behind a write to the receiver", nerr), why)
+		}
+	}
 }
 
 func blockReaches(a, b *ssa.BasicBlock) bool {
@@ -677,6 +765,7 @@ func gobLayout(m *model.Model, s *ob.Set, dec *ssa.Function, decoded []dstore) {
 					if !ok {
 						continue
 					}
+					// (conv)((conv)(field ± bias) & mask) << sh, the conversions anywhere
 					and, ok := stripConv(x.X).(*ssa.BinOp)
 					if !ok || and.Op != token.AND {
 						continue
@@ -685,7 +774,7 @@ func gobLayout(m *model.Model, s *ob.Set, dec *ssa.Function, decoded []dstore) {
 					if !ok {
 						continue
 					}
-					inner := and.X
+					inner := stripConv(and.X)
 					bias := int64(0)
 					if add, ok := inner.(*ssa.BinOp); ok && (add.Op == token.ADD || add.Op == token.SUB) {
 						if k, ok := model.ConstInt(add.Y); ok {
@@ -693,7 +782,7 @@ func gobLayout(m *model.Model, s *ob.Set, dec *ssa.Function, decoded []dstore) {
 							if add.Op == token.SUB {
 								bias = -k
 							}
-							inner = add.X
+							inner = stripConv(add.X)
 						}
 					}
 					if f, ok := fieldOfLoad(inner); ok {
@@ -730,6 +819,56 @@ func gobLayout(m *model.Model, s *ob.Set, dec *ssa.Function, decoded []dstore) {
 									}
 									encH[f] = hdrLayout{shift, 1, 0, true}
 								}
+							}
+						}
+					}
+					// … | signBit(x.neg): a helper of the sign alone whose returns are 0 and a power of two
+					for _, opnd := range []ssa.Value{x.X, x.Y} {
+						call, ok := stripConv(opnd).(*ssa.Call)
+						if !ok || len(call.Call.Args) != 1 {
+							continue
+						}
+						h := model.Unthunk(call.Call.StaticCallee())
+						f, okf := fieldOfLoad(call.Call.Args[0])
+						if h == nil || !okf || f != m.F.Neg || !m.InDecimalPkg(h) || len(h.Blocks) == 0 {
+							continue
+						}
+						vals := map[int64]bool{}
+						pure := true
+						for _, hb := range h.Blocks {
+							for _, hin := range hb.Instrs {
+								switch r := hin.(type) {
+								case *ssa.Return:
+									for _, rv := range r.Results {
+										if kk, ok := model.ConstInt(rv); ok {
+											vals[kk] = true
+										} else if ph, ok := rv.(*ssa.Phi); ok {
+											for _, e := range ph.Edges {
+												if kk, ok := model.ConstInt(e); ok {
+													vals[kk] = true
+												} else {
+													pure = false
+												}
+											}
+										} else {
+											pure = false
+										}
+									}
+								case *ssa.Store, ssa.CallInstruction:
+									pure = false
+								}
+							}
+						}
+						if !pure || len(vals) != 2 || !vals[0] {
+							continue
+						}
+						for kk := range vals {
+							if kk != 0 && kk&(kk-1) == 0 {
+								shift := int64(0)
+								for k2 := kk; k2 > 1; k2 >>= 1 {
+									shift++
+								}
+								encH[f] = hdrLayout{shift, 1, 0, true}
 							}
 						}
 					}
@@ -801,6 +940,21 @@ func gobLayout(m *model.Model, s *ob.Set, dec *ssa.Function, decoded []dstore) {
 				v = ne.X
 			}
 		}
+		// b&m == m for a one-bit mask m: the same test as b&m != 0
+		if eq, ok := v.(*ssa.BinOp); ok && eq.Op == token.EQL {
+			if k, ok := model.ConstInt(eq.Y); ok && k != 0 && k&(k-1) == 0 {
+				if and, ok := stripConv(eq.X).(*ssa.BinOp); ok && and.Op == token.AND {
+					if mk, ok := model.ConstInt(and.Y); ok && mk == k {
+						v = eq.X
+					}
+				}
+			}
+		}
+		// a field taken out of the byte by any nesting of >> k and & m: (b >> s) & m
+		if s0, m0, ok := byteField(stripConv(v)); ok && m0 != 0xFF {
+			decH[d.field] = hdrLayout{s0, m0, bias, true}
+			continue
+		}
 		if and, ok := v.(*ssa.BinOp); ok && and.Op == token.AND {
 			mask, ok1 := model.ConstInt(and.Y)
 			shift := int64(0)
@@ -854,7 +1008,11 @@ func gobLayout(m *model.Model, s *ob.Set, dec *ssa.Function, decoded []dstore) {
 		c := "(*Decimal).GobDecode/G3:header." + m.FieldN[f]
 		s.Check(e.ok && d.ok && e == d, R, c, m.Pos(dec.Pos()), e.String(), fmt.Sprintf("GobEncode packs %s as [%s] but GobDecode unpacks [%s]", m.FieldN[f], e, d))
 	}
-	if len(fs) < 4 {
+	if len(fs) == 0 {
+		// neither side packs the flag byte with constant shifts and masks (a table of field
+		// positions, say): the agreement of the two is then not read off here
+		s.Note(R, "(*Decimal).GobDecode/G3:header", m.Pos(dec.Pos()), "no header field is packed or unpacked with constant shifts and masks (layout agreement not decided)")
+	} else if len(fs) < 4 {
 		s.Bad(R, "(*Decimal).GobDecode/G3:header", m.Pos(dec.Pos()), fmt.Sprintf("only %d header fields recognised in encoder/decoder (expected mode, acc, form, neg)", len(fs)))
 	}
 	var ws []int
@@ -1110,4 +1268,34 @@ func bigEndianBytes(v ssa.Value) (int64, bool) {
 		seen[i] = true
 	}
 	return min, true
+}
+
+// byteField reads a nesting of `>> k` and `& m` over one byte as (shift, mask): the value is
+// (b >> shift) & mask.
+func byteField(v ssa.Value) (shift, mask int64, ok bool) {
+	bo, isB := v.(*ssa.BinOp)
+	if !isB {
+		if bt, isBasic := v.Type().Underlying().(*types.Basic); isBasic && bt.Kind() == types.Uint8 {
+			return 0, 0xFF, true
+		}
+		return 0, 0, false
+	}
+	k, isK := model.ConstInt(bo.Y)
+	if !isK {
+		return 0, 0, false
+	}
+	s, m, ok := byteField(stripConv(bo.X))
+	if !ok {
+		return 0, 0, false
+	}
+	switch bo.Op {
+	case token.SHR:
+		if k < 0 || k > 7 {
+			return 0, 0, false
+		}
+		return s + k, m >> uint(k), true
+	case token.AND:
+		return s, m & k, true
+	}
+	return 0, 0, false
 }
